@@ -1,13 +1,16 @@
 package c03
 
 import (
+	"bytes"
 	"context"
 	"crypto/sha256"
 	"encoding/binary"
 	"encoding/hex"
+	"encoding/json"
 	"fmt"
 	"math/big"
 	"os"
+	"regexp"
 	"sort"
 	"strings"
 	"sync"
@@ -88,6 +91,7 @@ type hOp struct {
 	Timestamp uint64  `json:"timestamp,omitempty"`
 	TimeLock  uint64  `json:"time_lock,omitempty"`
 	Transfer  bool    `json:"transfer,omitempty"`
+	Respell   bool    `json:"respell,omitempty"`  // reimport: the exported genesis is edited by hand first - hash locks and ids in lower-case hex, addresses in upper case
 	UpperTo   bool    `json:"upper_to,omitempty"` // create: the recipient address is written in upper case
 	// create: the secret the generator built the hash lock from (bookkeeping for later claims, not sent);
 	// claim: the secret presented
@@ -178,6 +182,7 @@ type counters struct {
 	limitHit, tbLimitHit, toEscrowClaimed, predMismatch, panics, overflows, blocks, maxLock int
 	f11Changes, f11ClaimRejected                                                            int
 	// restarts
+	respelled                                                                                       int
 	reimports, reimpOpenPlain, reimpOpenIn, reimpOpenOut, reimpForgot, reimpSupply, reimpAtExpiryM1 int
 	bursts, burstRefunded                                                                           int
 	boundaryRestarts, boundaryRestartsAtExpiry, upperTo                                             int
@@ -681,6 +686,9 @@ func (m *machine) importNeedsCompatibleParams() bool {
 // carries the parameters, the supply records, the previous block time and the OPEN contracts; closed contracts
 // are forgotten (the model forgets them too: nothing is asserted about their ids afterwards except that a claim
 // on them is still refused).
+// hexFieldRe matches the hash locks of an exported htlc genesis together with their key (the key is lower case already).
+var hexFieldRe = regexp.MustCompile(`"hash_lock":\s*"[0-9A-Fa-f]+"`)
+
 func (m *machine) applyReimport(op hOp) error {
 	var before chain.Sheet
 	if m.c03() {
@@ -694,7 +702,19 @@ func (m *machine) applyReimport(op hOp) error {
 		}
 		reported[i] = int(h.State)
 	}
+	if op.Respell {
+		// the same state in another spelling that the module's validation accepts (hex is case-insensitive; what the
+		// module would refuse is imported as exported instead)
+		m.c.GenesisEdit = func(_ string, exported json.RawMessage) json.RawMessage {
+			return hexFieldRe.ReplaceAllFunc(exported, func(b []byte) []byte { return bytes.ToLower(b) })
+		}
+	}
+	ei := m.c.EditedImports
 	exported, stage, err := m.c.Reimport(htlctypes.ModuleName)
+	m.c.GenesisEdit = nil
+	if m.c.EditedImports > ei {
+		m.n.respelled++
+	}
 	if err != nil {
 		ex := string(exported)
 		if len(ex) > 1500 {
@@ -1426,6 +1446,7 @@ func (m *machine) Classify() (bool, []string) {
 	add(n.overflows, "overflow")
 	add(n.f11Changes, "f11-incompatible-param-change")
 	add(n.reimports, "reimport")
+	add(n.respelled, "reimport-of-a-genesis-with-hash-locks-in-lower-case")
 	add(n.bursts, "bucket-with->100-contracts")
 	add(n.upperTo, "recipient-in-upper-case-accepted")
 	add(n.boundaryRestarts, "restart-at-a-block-boundary")
